@@ -31,6 +31,10 @@ def run_case(ctx, case):
         U, P, W, us = [frac(x) for x in Ui], [tuple(frac(x) for x in p) for p in Pi], (None if Wi is None else [frac(w) for w in Wi]), [frac(u) for u in usi]
     else:
         Pi, Wi, usi = P, W, us
+        if c.get("intdata"):
+            # integral control points and weights handed over as python ints (each fits a machine word, their products need not)
+            Pi = [tuple(int(x) for x in p) for p in P]
+            Wi = None if W is None else [int(w) for w in W]
     rec.case(case, nontrivial=nontrivial_kv(c["U"]))
     rec.count("rep", rep)
     rec.count("degree", str(kv_info(c["U"])[0]))
@@ -133,6 +137,16 @@ def run(ctx):
     e_ = F(1, 10**12)
     run_case(ctx, ser(dict(kind="eval", U=[F(0)] * 3 + [F(1, 2), F(1, 2) + e_] + [F(1)] * 3, P=[(F(1),), (F(3),), (F(2),), (F(5),), (F(4),)], W=None,
                            us=[F(1, 4), F(1, 2), F(1, 2) + e_ / 2, F(3, 4)], rep="fraction")))
+    for i in range(budget(ctx, 12, 120)):
+        # python-int control points and weights: small ones, and ones that fit 64 bits each while the products w_i * P_i do not
+        U = rand_kv(rng, pmax=3, nintmax=2)
+        npts = kv_info(U)[1]
+        bigw = i % 3 != 0
+        dim = rng.choice([1, 2])
+        P = [tuple(F(rng.choice([-1, 1]) * (rng.randint(10**9, 10**11) if bigw else rng.randint(0, 9))) for _ in range(dim)) for _ in range(npts)]
+        W = [F(rng.randint(2**31, 2**33) if bigw else rng.randint(1, 5)) for _ in range(npts)] if i % 4 != 3 else None
+        ctx["rec"].count("family", "python-int-data" + ("-big" if bigw else ""))
+        run_case(ctx, ser(dict(kind="eval", U=U, P=P, W=W, us=params_for(rng, U), rep="fraction", intdata=True)))
     n = budget(ctx, 220, 2500)
     for i in range(n):
         rep = rng.choice(["fraction"] * 6 + ["float", "float", "npfloat", "intknots"])
